@@ -4,6 +4,7 @@
 #include <cmath>
 #include <cstdlib>
 #include <algorithm>
+#include <map>
 #include <set>
 
 namespace tbfsim {
@@ -98,16 +99,26 @@ static double clampToBoxF(double pd, float centre, float width) {
 }
 
 static void toBox(const Scenario& sc, std::vector<std::array<double, 3>>& pts) {
+    // one coordinate in eight (chosen by a hash of its value: no PRNG draw) is moved by one unit in the last place before clamping:
+    // lattice positions then also come as "one ulp below / above a cell face", the upper box face included
     if (sc.isFloat()) {
         for (auto& p : pts) for (int d = 0; d < 3; ++d) {
             const double corner = sc.centre[size_t(d)] + sc.width[size_t(d)] * (-1.0 / 2.0);
-            p[size_t(d)] = clampToBoxF(corner + p[size_t(d)] * sc.width[size_t(d)], float(sc.centre[size_t(d)]), float(sc.width[size_t(d)]));
+            float v = float(corner + p[size_t(d)] * sc.width[size_t(d)]);
+            uint32_t bits; std::memcpy(&bits, &v, sizeof bits);
+            const uint64_t h = mix64(0x5EEDULL + uint64_t(d), bits);
+            if ((h & 7) == 0) v = std::nextafterf(v, (h & 8) ? INFINITY : -INFINITY);
+            p[size_t(d)] = clampToBoxF(double(v), float(sc.centre[size_t(d)]), float(sc.width[size_t(d)]));
         }
         return;
     }
     for (auto& p : pts) for (int d = 0; d < 3; ++d) {
         const double corner = sc.centre[size_t(d)] + sc.width[size_t(d)] * (-1.0 / 2.0);
-        p[size_t(d)] = clampToBox(corner + p[size_t(d)] * sc.width[size_t(d)], corner, sc.width[size_t(d)]);
+        double v = corner + p[size_t(d)] * sc.width[size_t(d)];
+        uint64_t bits; std::memcpy(&bits, &v, sizeof bits);
+        const uint64_t h = mix64(0x5EEDULL + uint64_t(d), bits);
+        if ((h & 7) == 0) v = std::nextafter(v, (h & 8) ? INFINITY : -INFINITY);
+        p[size_t(d)] = clampToBox(v, corner, sc.width[size_t(d)]);
     }
 }
 
@@ -393,10 +404,10 @@ Scenario generate(const std::string& prop, uint64_t seed, const std::string& tie
     if (topSequence) {
         // a share of the periodic sequences runs on a REBUILT tree: everything moved (into the lowest-index cell of a level, into one
         // leaf, or anywhere), rebuild, then the four calls -- the top-tree executor reads the upper levels that rebuild() re-created
-        if ((prop == "C02" || prop == "C15") && !numeric && r.chance(0.2)
+        if ((prop == "C02" || prop == "C15") && !numeric && r.chance(0.3)
             && (sc.executor == "seq" || sc.executor == "omp" || sc.executor == "seqtsm" || sc.executor == "omptsm")) {
             HistOp mv; mv.op = "move";
-            const int km = int(r.below(3));
+            const int km = int(r.below(4)) % 3;   // 0 (twice as likely): into the lowest-index cell of a level; 1: into one leaf; 2: anywhere
             const int lvl = 1 + int(r.below(uint64_t(sc.height - 1)));
             const long cells = 1L << (sc.height - 1);
             const std::array<double, 3> leafAt{{double(r.below(uint64_t(cells))), double(r.below(uint64_t(cells))), double(r.below(uint64_t(cells)))}};
@@ -464,7 +475,54 @@ Scenario generate(const std::string& prop, uint64_t seed, const std::string& tie
         const long cells = 1L << (sc.height - 1);
         for (int c = 0; c < cycles; ++c) {
             HistOp mv; mv.op = "move";
-            const int kindMv = int(r.below(8));
+            int kindMv = int(r.below(9));
+            // kind 8: compensating moves -- the particles of two leaves go to two free leaves such that the first leaf, the last leaf, the
+            // number of leaves and the SUM of the leaf indexes all stay what they were, while the set of parents changes (anything that
+            // recognises "nothing changed" from such summaries is wrong here).  Morton index order of the library: x is the high bit of a triplet.
+            std::map<long, std::array<double, 3>> relocate;   // old leaf index -> unit-cube position of the new leaf's centre
+            if (kindMv == 8) {
+                kindMv = 5;   // unless a compensating pair is found below: rebuild without moving
+                if (sc.ordering != "hilbert" && sc.height >= 3 && sc.height <= 8) {
+                    auto enc = [&](long x, long y, long z) { long idx = 0; for (int b = 0; b < sc.height - 1; ++b) idx |= (((x >> b) & 1L) << (3 * b + 2)) | (((y >> b) & 1L) << (3 * b + 1)) | (((z >> b) & 1L) << (3 * b)); return idx; };
+                    auto dec = [&](long idx, long c[3]) { c[0] = c[1] = c[2] = 0; for (int b = 0; b < sc.height - 1; ++b) { c[0] |= ((idx >> (3 * b + 2)) & 1L) << b; c[1] |= ((idx >> (3 * b + 1)) & 1L) << b; c[2] |= ((idx >> (3 * b)) & 1L) << b; } };
+                    std::set<long> occ;
+                    for (const auto& q : cur[0]) {
+                        long c[3];
+                        for (int d = 0; d < 3; ++d) {
+                            const double corner = sc.centre[size_t(d)] + sc.width[size_t(d)] * (-1.0 / 2.0);
+                            c[d] = std::min(cells - 1, std::max(0L, long((q[size_t(d)] - corner) / (sc.width[size_t(d)] / double(cells)))));
+                        }
+                        occ.insert(enc(c[0], c[1], c[2]));
+                    }
+                    if (occ.size() >= 4) {
+                        std::vector<long> inner(std::next(occ.begin()), std::prev(occ.end()));
+                        const long lo = *occ.begin(), hi = *occ.rbegin();
+                        for (int attempt = 0; attempt < 60 && relocate.empty(); ++attempt) {
+                            const long a = inner[r.below(inner.size())], b = inner[r.below(inner.size())];
+                            const long dlt = 1 + long(r.below(24));
+                            if (a >= b) continue;
+                            const long na = a + dlt, nb = b - dlt;
+                            if (na == nb || na <= lo || na >= hi || nb <= lo || nb >= hi || occ.count(na) || occ.count(nb)) continue;
+                            if ((na >> 3) == (a >> 3) && (nb >> 3) == (b >> 3)) continue;   // the parents must change
+                            long ca[3], cb[3];
+                            dec(na, ca); dec(nb, cb);
+                            relocate[a] = {{(double(ca[0]) + 0.5) / double(cells), (double(ca[1]) + 0.5) / double(cells), (double(ca[2]) + 0.5) / double(cells)}};
+                            relocate[b] = {{(double(cb[0]) + 0.5) / double(cells), (double(cb[1]) + 0.5) / double(cells), (double(cb[2]) + 0.5) / double(cells)}};
+                            kindMv = 8;
+                            if (r.chance(0.7)) sc.blockSize = 1000000;   // one group per level: its first leaf, last leaf and leaf count are those of the tree
+                        }
+                    }
+                }
+            }
+            auto leafIndexOf = [&](const std::array<double, 3>& q) {
+                long idx = 0;
+                for (int b = 0; b < sc.height - 1; ++b) for (int d = 0; d < 3; ++d) {
+                    const double corner = sc.centre[size_t(d)] + sc.width[size_t(d)] * (-1.0 / 2.0);
+                    const long c = std::min(cells - 1, std::max(0L, long((q[size_t(d)] - corner) / (sc.width[size_t(d)] / double(cells)))));
+                    idx |= ((c >> b) & 1L) << (3 * b + (2 - d));
+                }
+                return idx;
+            };
             const int mvCornerLevel = 1 + int(r.below(uint64_t(sc.height > 1 ? sc.height - 1 : 1)));
             for (int t = 0; t < (sc.isTsm() ? 2 : 1); ++t) {
                 if (cur[t].empty()) continue;
@@ -489,6 +547,12 @@ Scenario generate(const std::string& prop, uint64_t seed, const std::string& tie
                             break;
                         }
                         case 4: if (!r.chance(0.5)) { moved = false; break; } for (int d = 0; d < 3; ++d) u[size_t(d)] = double(r.below(uint64_t(cells + 1))) / double(cells); break;  // onto faces
+                        case 8: {
+                            auto it = (t == 0) ? relocate.find(leafIndexOf(cur[t][i])) : relocate.end();
+                            if (it == relocate.end()) { moved = false; break; }
+                            u = it->second;
+                            break;
+                        }
                         case 7: for (int d = 0; d < 3; ++d) u[size_t(d)] = r.unit() / double(1L << mvCornerLevel); break;                                             // everything into the lowest-index cell of a level
                         case 5: moved = false; break;                                                                                                                        // rebuild without moving
                         default: if (i != 0) { moved = false; break; } for (int d = 0; d < 3; ++d) u[size_t(d)] = r.unit(); break;                                          // a single particle
